@@ -12,12 +12,22 @@ git -C /repo log --format='%h %s' | grep ' fix:' | while read c msg; do
   if git -C "$W" revert --no-commit $c >/dev/null 2>&1; then
     tools/baseline.sh "$W" >/dev/null 2>&1; base=$?
     for p in $props; do
-      r=$(cd /verif && VERIF_INTENSIFY=${REV_INTENSIFY:-0} VERIF_REPO="$W" ./check $p --tier quick 2>&1 | grep -E "^VIOLATION" | head -1)
-      v=MISSED; [ -n "$r" ] && v=caught; case "$r" in *no-failing-input-found*) v="caught (no-failing-input-found)";; esac
+      outp=$(cd /verif && VERIF_INTENSIFY=${REV_INTENSIFY:-0} VERIF_REPO="$W" ./check $p --tier quick 2>&1); rc=$?
+      r=$(echo "$outp" | grep -E "^VIOLATION" | head -1)
+      v=MISSED; [ -n "$r" ] && [ $rc = 1 ] && v=caught; [ $rc = 2 ] && v="ERROR(rc=2)"
+      case "$r" in *no-failing-input-found*) v="caught (no-failing-input-found)";; esac
       echo "$c  $p  $v  suite=$base  :: $msg" >> $out.tmp
     done
   else
-    echo "$c  -  revert-conflicts  :: $msg" >> $out.tmp
+    # a later fix touches the same lines: the equivalent hand mutant (same behaviour change on today's code) is in mutants/
+    case $c in
+      920659e) m=mutants/C16-star-filter-removed.patch;;
+      15edae6) m=mutants/C11-strip-shortest-first.patch;;
+      4c3b70d) m=mutants/C11-strip-no-boundary.patch;;
+      aed937c) m=mutants/C18-draw-on-resumption.patch;;
+      *) m="";;
+    esac
+    echo "$c  -  revert-conflicts (see ${m:-no equivalent} in MATRIX.txt)  :: $msg" >> $out.tmp
   fi
   git -C "$W" revert --abort >/dev/null 2>&1
   git -C /repo worktree remove --force "$W" >/dev/null 2>&1; rm -rf "$W"
